@@ -9,8 +9,8 @@ replay = base.s_replay
 def run(tier):
     jobs = [chrun.SJob("vlib.sh.c09", "c09", base.parts(64), 400 if tier == "quick" else 1200,
                        what="ObjectStream.Select / SelectMany on a typed dataset whose model registers a class-level callback (Trk), method-level callbacks (Trk.pt, Jet.pt), a "
-                            "method callback that returns a rewritten call (Jet.mass), a function processor (calib) a parameterized property (Jet.getAttr[...]) and a class-level callback on a subclass whose method is inherited from an undecorated base (Muon.p); 8 call "
-                            "sites, any subset of them present (symbolic 9-bit mask), placed inside a nested Select over the jets (sites at depth 1 and 2), directly in the "
+                            "method callback that returns a rewritten call (Jet.mass), a function processor that returns a rewritten call (calib), a parameterized property (Jet.getAttr[...]) and a class-level callback on a subclass whose method is inherited from an undecorated base (Muon.p); 8 call "
+                            "sites, " + ("every subset of at most 3 of them and all 9 together" if tier == "quick" else "any subset of them present") + " (symbolic 9-bit mask), placed inside a nested Select over the jets (sites at depth 1 and 2), directly in the "
                             "stream lambda, or inside a Where nested in a SelectMany; symbolic: the mask, the first component of the parameter tuple of the parameterized call (unbounded int - the tuple must arrive by "
                             "value); oracle: invocation log equals the expected multiset with class before method, nothing fires for absent sites, "
                             "the MetaData tags on the args[0] chain of the result equal those of the fired callbacks and none is left inside the lambda, the rewrite and the "
@@ -19,5 +19,6 @@ def run(tier):
                        explanation="bounded symbolic execution (CrossHair/z3) of the callback machinery with a symbolic call-site mask and symbolic property parameters",
                        functions=["func_adl.type_based_replacement.type_transformer.process_method_callbacks/process_function_call/process_parameterized_method_call/"
                                   "process_method_call_on_stream_obj", "fixup_ast_from_modifications", "func_adl.util_ast.scan_for_metadata", "func_adl.object_stream.ObjectStream.Select/SelectMany/MetaData"],
-                       bounds={"call_sites": 9, "placements": 4, "nesting_depth": 2, "parameter_tuple": "(unbounded int, fixed str)"})
+                       bounds={"call_sites": 9, "subsets": "size <= 3 or all" if tier == "quick" else "all 512", "placements": 4, "nesting_depth": 2, "parameter_tuple": "(unbounded int, fixed str)"})
+    r.coverage["not_symbolically_executed"] = list(r.coverage.get("not_symbolically_executed", [])) + ["queries that do not contain the parameterized call (no symbolic value in them) run without the tracer"]
     return r.finish()
